@@ -347,3 +347,48 @@ Theorem hand_attr_unquoted_refuted : exists s,
   unq_safe (html_escape s) = false /\
   attr_read (hand_attr QDouble s ++ [62]) = html_escape s.
 Proof. exists x_onx. split; [vm_compute; discriminate|]. split; reflexivity. Qed.
+
+
+(* ---- stored text and parts of a field *)
+Lemma strip_page_render tpl tail : render (strip (page tpl tail)) = flat_map fst tpl ++ tail.
+Proof.
+  unfold page, render. induction tpl as [|[t f] r IH]; cbn [flat_map app strip filter is_trusted fst snd].
+  - cbn. rewrite app_nil_r. reflexivity.
+  - destruct f; cbn [seg_of_pfield is_trusted flat_map render_seg app]; unfold strip in IH; rewrite IH, app_assoc; reflexivity.
+Qed.
+
+Theorem stored_fields_inert decode history row c tail ct :
+  let st := store_of decode history in
+  skeleton (render (r_body (mkResp ct (stored_page row c st tail)))) =
+  skeleton (flat_map (fun _ => row) st ++ tail).
+Proof.
+  cbn zeta. unfold stored_page. rewrite page_fields_inert. cbn [r_body]. rewrite strip_page_render.
+  f_equal. f_equal. induction (store_of decode history) as [|s r IH]; [reflexivity|].
+  cbn [map flat_map fst]. rewrite IH. reflexivity.
+Qed.
+
+Theorem stored_raw_refuted : exists decode history,
+  let st := store_of decode history in
+  skeleton (render (stored_page_raw [60;116;100;62] st [])) <>
+  skeleton (render (strip (stored_page_raw [60;116;100;62] st []))).
+Proof. exists (fun r => [r]), [[60;105;62]]. vm_compute. discriminate. Qed.
+
+Lemma before_at_wrap p d : has (fun c => c =? 64) p = false -> before_at (p ++ 64 :: d) = p.
+Proof.
+  induction p as [|x p IH]; cbn [has app before_at]; intros H.
+  - reflexivity.
+  - apply orb_false_iff in H. destruct H as [H1 H2]. rewrite H1, (IH H2). reflexivity.
+Qed.
+
+Theorem part_quoted_inert (part : bs -> bs) s rest :
+  attr_read (hand_attr QDouble (part s) ++ rest) = html_escape (part s) /\
+  attr_read (hand_attr QSingle (part s) ++ rest) = html_escape (part s).
+Proof. apply hand_attr_quoted_inert. Qed.
+
+Theorem part_unquoted_refuted : exists s,
+  let p := before_at s in
+  attr_read (hand_attr QUnquoted p ++ [62]) <> html_escape p /\
+  unq_safe (html_escape p) = false /\
+  html_escape s = s /\
+  attr_read (hand_attr QDouble p ++ [62]) = html_escape p.
+Proof. exists x_onx_mail. cbn zeta. split; [vm_compute; discriminate|]. repeat split; reflexivity. Qed.
